@@ -55,6 +55,52 @@ fn main() {
         }
         return;
     }
+    if args.len() >= 2 && args[1] == "spec-sanity" {
+        // ORACLE CROSS-CHECK (informational, decides nothing): pseudo-random single-instruction witnesses for
+        // every supported opcode are run on the REAL interpreter and compared with spec_step.  A disagreement
+        // outside the known findings would mean the specification, not the code, needs a second look.
+        let per: usize = args.get(2).and_then(|s| s.parse().ok()).unwrap_or(200);
+        let mut x: u64 = args.get(3).and_then(|s| s.parse().ok()).unwrap_or(1) ^ 0x9E3779B97F4A7C15;
+        let mut rnd = move || { x ^= x << 13; x ^= x >> 7; x ^= x << 17; x };
+        let special: [u64; 12] = [0, 1, 2, 31, 32, 63, 64, 0x7fff_ffff, 0x8000_0000, 0xffff_ffff, 0x8000_0000_0000_0000, u64::MAX];
+        let (mut agree, mut differ, mut skipped, mut unexplained) = (0usize, 0usize, 0usize, 0usize);
+        let mut differ_opcs: Vec<u8> = vec![];
+        for opc in 0..=255u8 {
+            if !spec::supported(opc) || opc == spec::OP_TAIL_CALL || opc == spec::OP_CALL || opc == spec::OP_EXIT { continue; }
+            let (mut a, mut d, mut k) = (0usize, 0usize, 0usize);
+            let mut first = String::new();
+            for _ in 0..per {
+                let mem = (0x10000u64, 64u64);
+                let mbuff = (0x20000u64, 32u64);
+                let mut reg = [0u64; 11];
+                for r in reg.iter_mut() {
+                    *r = match rnd() % 4 { 0 => special[(rnd() % 12) as usize], 1 => mem.0.wrapping_add(rnd() % 80).wrapping_sub(8), 2 => mbuff.0.wrapping_add(rnd() % 48).wrapping_sub(8), _ => rnd() };
+                }
+                let imm = match rnd() % 3 { 0 => special[(rnd() % 12) as usize] as i32, 1 => (rnd() % 64) as i32, _ => rnd() as i32 };
+                let off = if spec::is_jump(opc) { (rnd() % 8) as i16 - 3 } else { (rnd() % 24) as i16 - 8 };
+                // r10 is only known after a successful run and the observer uses [r10-8]: no r10-based memory operands here
+                let src_n = if opc & 7 <= 3 { 10 } else { 11 };
+                let insn = spec::SInsn { opc, dst: (rnd() % 10) as u8, src: (rnd() % src_n) as u8, off, imm };
+                if !spec::wf_facts(&insn, 64, 200) { k += 1; continue; }
+                let w = step::Wit { engine: step::Engine::Interp, insn, next_imm: rnd() as i32, reg, pc: 64, n: 200, depth: 0, mem, mbuff, stack: (0, 0), load_data: rnd() };
+                let r = step::replay(&w);
+                if r.starts_with("NOT-REPRODUCED") { a += 1; }
+                else if r.starts_with("REPRODUCED") {
+                    d += 1;
+                    // open finding interp-jmp-imm-zero-extended: 64-bit jeq/jgt/jge/jlt/jle/jne with a negative immediate
+                    let known = [0x15u8, 0x25, 0x35, 0x55, 0xa5, 0xb5].contains(&opc) && insn.imm < 0;
+                    if !known { unexplained += 1; println!("SANITY-UNEXPLAINED {}", r); }
+                    if first.is_empty() { first = r; }
+                }
+                else { k += 1; }
+            }
+            println!("SANITY opc={:#04x} agree={} differ={} not-runnable={} {}", opc, a, d, k, first);
+            agree += a; differ += d; skipped += k;
+            if d > 0 { differ_opcs.push(opc); }
+        }
+        println!("SANITY-TOTAL agree={} differ={} (explained by open finding interp-jmp-imm-zero-extended: {}, unexplained: {}) not-runnable={} differing-opcodes={:02x?}", agree, differ, differ - unexplained, unexplained, skipped, differ_opcs);
+        return;
+    }
     if args.len() >= 2 && args[1] == "wf-witness" {
         // vacuity guard: for every supported opcode there is a concrete instruction satisfying the
         // precondition `wf_facts` the per-opcode harnesses assume (pc 0 of 4 slots, and pc 5 of 10)
